@@ -12,6 +12,7 @@ import (
 	"github.com/tikv/pd/server/kv"
 	"github.com/tikv/pd/server/member"
 	"github.com/tikv/pd/server/tso"
+	"go.etcd.io/etcd/etcdserver/etcdserverpb"
 )
 
 // vrfServer builds a *Server that is the serving PD leader of cluster 7, without
@@ -31,6 +32,7 @@ func vrfNewServer(base kv.Base) *vrfServerWorld {
 	c := w.etcd.Client()
 	ls := election.VerifLeadership(c, "/pd/7/leader", "pd-1-value", 7, time.Unix(0, int64(1)<<62))
 	w.etcd.SetRaw("/pd/7/leader", []byte("pd-1-value"))
+	w.etcd.SetMembers([]*etcdserverpb.Member{{ID: 1, Name: "pd-1", ClientURLs: []string{"http://pd-1:2379"}}})
 	s := &Server{}
 	s.isServing = 1
 	s.clusterID = vrfClusterID
